@@ -124,7 +124,7 @@ mech("ts-server-no-url-validation",
 
 mech("ts-server-requires-json-body",
  "generated TS server calls req.json() for POST/PUT/PATCH unconditionally: a request without a body (or with an empty one) fails with 500",
- [("C02","bind/ts/*/{POST,PUT,PATCH}/body={absent,empty}@*",["handler-not-reached","status"],"st500")])
+ [("C02","bind/ts/*/{POST,PUT,PATCH}/body={absent,empty,chunked-empty}@*",["handler-not-reached","status"],"st500")])
 
 mech("ts-server-query-binding",
  "generated TS server binds query parameters only for GET/DELETE and reads a single value: query-annotated fields of body verbs are ignored and repeated query fields arrive as a scalar",
